@@ -539,7 +539,14 @@ func (s *scope) Close() error {
 	verifhook.Yield("close.post-done")
 
 	if s.root {
+		// Wait for the report loop (if any) to leave its current pass and
+		// exit, so that the final report below is the last one and sees
+		// everything recorded before Close; only then drop the subscopes.
+		s.wg.Wait()
 		s.reportRegistry()
+		if s.baseReporter != nil {
+			s.registry.purge()
+		}
 		verifhook.Yield("close.pre-reporter-close")
 		if closer, ok := s.baseReporter.(io.Closer); ok {
 			return closer.Close()
